@@ -185,7 +185,8 @@ void parallel_for(const Range &range, const Body &body) {
     while (!work.empty()) {
         auto lf = work.back(); work.pop_back();
         std::size_t len = lf.second - lf.first;
-        int s = len >= 2 ? vx::choose((int) len, vx::ORDER) : 0;     // 0 = keep whole, s>0 = split after s elements
+        // a blocked_range is divisible only while it is longer than its grain size (default 1)
+        int s = (len >= 2 && len > (std::size_t) range.grainsize()) ? vx::choose((int) len, vx::ORDER) : 0;     // 0 = keep whole, s>0 = split after s elements
         if (s == 0) leaves.push_back(lf);
         else { work.push_back({lf.first + s, lf.second}); work.push_back({lf.first, lf.first + s}); }
     }
@@ -228,6 +229,7 @@ template<class Range, class Body>
 void parallel_for(const Range &range, const Body &body) {
     using namespace vtbb_detail;
     std::size_t N = length(range);
+    if (N <= (std::size_t) range.grainsize()) { if (N) body(range); return; }     // not divisible
     std::vector<std::thread> th;
     th.reserve(N);
     for (std::size_t i = 0; i < N; ++i) th.emplace_back([&, i]() { body(subrange(range, i, i + 1)); });
@@ -255,6 +257,7 @@ namespace vtbb_detail {
         VtbbStats &S = vtbb_stats();
         std::size_t N = length(range), maxc = (std::size_t) vtbb_max_cells();
         std::vector<std::size_t> cut;
+        if (N <= (std::size_t) range.grainsize()) { ++S.reduce_body_runs; return body(range, identity); }     // not divisible: one body, no join
         if (N <= maxc) { for (std::size_t i = 0; i <= N; ++i) cut.push_back(i); }
         else {
             std::size_t w = (N + maxc - 1) / maxc;
@@ -268,7 +271,7 @@ namespace vtbb_detail {
         while (!work.empty()) {
             auto lf = work.back(); work.pop_back();
             std::size_t len = lf.second - lf.first;
-            int sp = len >= 2 ? vx::choose((int) len, vx::ORDER) : 0;
+            int sp = (len >= 2 && cut[lf.second] - cut[lf.first] > (std::size_t) range.grainsize()) ? vx::choose((int) len, vx::ORDER) : 0;
             if (sp == 0) leaves.push_back(lf);
             else { work.push_back({lf.first + sp, lf.second}); work.push_back({lf.first, lf.first + sp}); }
         }
@@ -324,7 +327,7 @@ Value parallel_reduce(const Range &range, const Value &identity, const Func &bod
     ++S.reduce_calls;
     std::size_t N = length(range);
     if (N == 0) return identity;
-    if (!vx::explorer().active) { ++S.reduce_body_runs; return body(range, identity); }
+    if (!vx::explorer().active || N <= (std::size_t) range.grainsize()) { ++S.reduce_body_runs; return body(range, identity); }   // (a range no longer than its grain size is not divisible)
     if (vtbb_reduce_mode() == 1) return vtbb_detail::reduce_direct(range, identity, body, join);
     // cells: the finest leaves considered. Up to vtbb_max_cells() single-index cells; longer ranges use a block grid
     // whose offset is an ORDER choice (all schedules whose leaf boundaries lie on the grid are enumerated).
@@ -378,6 +381,7 @@ Value parallel_reduce(const Range &range, const Value &identity, const Func &bod
     using namespace vtbb_detail;
     std::size_t N = length(range);
     if (N == 0) return identity;
+    if (N <= (std::size_t) range.grainsize()) return body(range, identity);     // not divisible
     std::vector<std::unique_ptr<Value>> part(N);
     std::vector<std::thread> th;
     th.reserve(N);
